@@ -35,7 +35,8 @@ SPEC = {
                 relevant=("add_param", "param_set_dims", "lock_group", "unlock_group", "set_"),
                 need={"c09_param_checked": 2000, "c09_set_inconsistent": 300, "c09_set_consistent": 300, "c09_lock_checked": 500},
                 rule="distinct sequences containing >= 1 parameter/group edit judged by the tree-diff or set() predicate monitors"),
-    "C10": dict(workloads=[("c10", False, 0.6, []), ("c10", True, 0.4, [])], quick=560, thorough=40000, maxops=(40, 60),
+    "C10": dict(workloads=[("c10", False, 0.5, []), ("c10", True, 0.38, []), ("c10", False, 0.12, ["--start", "@CORPUS@", "--maxops", "14"])],   # (third workload: loaded objects -- first frame > 1, sparse ids, fewer labels)
+                quick=560, thorough=40000, maxops=(40, 60),
                 relevant=("throw:",), need={"refused": 200},
                 rule="distinct sequences containing >= 1 refused public mutating call (snapshot equality judged around it)"),
     "C11": dict(workloads=[("c11", False, 0.8, ["--lookups", "14"]), ("c11", False, 0.2, ["--lookups", "14", "--start", "@CORPUS@", "--maxops", "12"])], quick=420, thorough=40000, maxops=(40, 60),
@@ -144,6 +145,9 @@ def run(prop, tier):
             for v in list(viols):
                 if v["prop"] == "C10" and _re.match(r"changed_after_refusal/(channel_column|point_column|declare_point|declare_channel)/.*/frame", v["key"]):
                     viols.append(dict(v, prop="C08", key="column/partly_added_by_refused_call/" + v["key"].split("/")[1]))
+                # ... and a VALID column call that is refused adds the column to no frame at all
+                if v["prop"] == "C07" and _re.match(r"column/valid_refused/(channel_column|point_column|declare_point|declare_channel)/", v["key"]):
+                    viols.append(dict(v, prop="C08", key="column/not_added_valid_call_refused/" + v["key"].split("/")[2]))
         cov, cnt = coverage_of(prop, results, spec)
         inconclusive = None
         scale = 1 if tier == "quick" else 4
